@@ -17,6 +17,8 @@
 //! add_reader <bs> <coldefs> <batches>   NewColumnTransform::Reader; one value row per live row, cut into batches
 //! alter <col>[/r=<new>][/n=<0|1>][/t=<i|l>](;…)     Dataset::alter_columns (rename, nullability, cast)
 //! drop <col>(,<col>)*               Dataset::drop_columns
+//! merge <col> <coldefs> <rows>     Dataset::merge(right batch, left_on = right_on = <col>): rows = key cell, then one cell per
+//!                                   coldef (nullable, new names); right keys non-NULL and pairwise different
 //! ```
 //!
 //! # Output lines
@@ -216,6 +218,7 @@ enum Op {
     AddReader(Option<u32>, Vec<ColDef>, Vec<Vec<Row>>),
     Alter(Vec<Alt>),
     Drop(Vec<String>),
+    Merge(String, Vec<ColDef>, Vec<Row>),
 }
 
 fn show_bs(b: &Option<u32>) -> String {
@@ -276,6 +279,7 @@ fn show_op(op: &Op) -> String {
                 .join(";")
         ),
         Op::Drop(cs) => format!("drop {}", cs.join(",")),
+        Op::Merge(c, cs, rows) => format!("merge {c} {} {}", show_coldefs(cs), show_rows(rows)),
     }
 }
 
@@ -339,6 +343,13 @@ fn parse_op(line: &str) -> Option<Op> {
         Op::AddNulls(cs) | Op::AddReader(_, cs, _) => distinct(cs.iter().map(|c| &c.name)),
         Op::Alter(alts) => distinct(alts.iter().map(|a| &a.col)),
         Op::Drop(cs) => distinct(cs.iter()),
+        Op::Merge(c, cs, rows) => {
+            let keys: Vec<Cell> = rows.iter().map(|r| r.first().copied().flatten()).collect();
+            distinct(cs.iter().map(|d| &d.name))
+                && cs.iter().all(|d| d.nullable && &d.name != c)
+                && rows.iter().all(|r| r.len() == cs.len() + 1 && r[0].is_some())
+                && keys.iter().collect::<BTreeSet<_>>().len() == keys.len()
+        }
         _ => true,
     };
     if ok {
@@ -403,6 +414,17 @@ fn parse_op_raw(line: &str) -> Option<Op> {
             }
             Some(Op::AddReader(bs, cs, b))
         }
+        ["merge", c, cs, rows] => {
+            if !name_ok(c) {
+                return None;
+            }
+            let cs = parse_coldefs(cs)?;
+            let rows = parse_rows(rows)?;
+            if !cells_small(&rows) {
+                return None;
+            }
+            Some(Op::Merge(c.to_string(), cs, rows))
+        }
         ["alter", alts] => Some(Op::Alter(alts.split(';').map(parse_alt).collect::<Option<Vec<_>>>()?)),
         ["drop", cs] => {
             let cs: Vec<String> = cs.split(',').map(|s| s.to_string()).collect();
@@ -426,6 +448,7 @@ fn op_kind(op: &Op) -> &'static str {
         Op::AddReader(..) => "add_reader",
         Op::Alter(..) => "alter",
         Op::Drop(..) => "drop",
+        Op::Merge(..) => "merge",
     }
 }
 
@@ -566,6 +589,27 @@ impl Flat {
                 }
                 for c in cs {
                     f.dropped.insert(c.clone());
+                }
+            }
+            Op::Merge(c, cs, rows) => {
+                let (_, keys) = self.col(c)?;
+                for (j, d) in cs.iter().enumerate() {
+                    if self.col(&d.name).is_some() {
+                        return None;
+                    }
+                    let v: Vec<Cell> = keys
+                        .iter()
+                        .map(|k| match k {
+                            None => None,
+                            Some(k) => rows.iter().find(|r| r[0] == Some(*k)).and_then(|r| r[j + 1]),
+                        })
+                        .collect();
+                    // HashJoiner::collect refuses to fill NULLs into Int32 / Int64 columns (legacy nulls rule): mirrored as a
+                    // refusal, see the module doc
+                    if v.iter().any(|x| x.is_none()) {
+                        return None;
+                    }
+                    f.cols.push((d.clone(), v));
                 }
             }
         }
@@ -787,6 +831,20 @@ fn run_real(kit: &Kit, uri: &str, ds: &mut Option<Dataset>, op: &Op) -> KitResul
             let cs: Vec<&str> = cs.iter().map(|s| s.as_str()).collect();
             kit.lance_call("drop_columns", d.drop_columns(&cs))
         }
+        Op::Merge(c, cs, rows) => {
+            let d = ds.as_mut().unwrap();
+            // the right-hand key column has the type of the left one
+            let kty = match d.schema().field(c).map(|f| f.data_type()) {
+                Some(DataType::Int32) => Ty::I32,
+                _ => Ty::I64,
+            };
+            let mut defs = vec![ColDef { name: c.clone(), ty: kty, nullable: false }];
+            defs.extend(cs.iter().cloned());
+            let batch = make_batch(&defs, rows)?;
+            let schema = batch.schema();
+            let reader = RecordBatchIterator::new(vec![Ok(batch)].into_iter(), schema);
+            kit.lance_call("merge", d.merge(reader, c, c))
+        }
     }
 }
 
@@ -866,9 +924,39 @@ impl C14 {
             _ => Expr::Null(if rng.chance(1, 2) { Ty::I32 } else { Ty::I64 }),
         }
     }
+    fn gen_merge(rng: &mut Rng, flat: &Flat) -> Op {
+        // prefer a key column without NULLs (a NULL key matches nothing and lance refuses to write the NULL)
+        let full: Vec<&(ColDef, Vec<Cell>)> = flat.cols.iter().filter(|c| c.1.iter().all(|x| x.is_some())).collect();
+        let c = if !full.is_empty() && rng.chance(9, 10) { rng.pick(&full).0.name.clone() } else { Self::some_col(rng, flat) };
+        let partial = rng.chance(1, 6);
+        let k = 1 + rng.usize(2);
+        let mut cs = vec![];
+        let mut f2 = flat.clone();
+        for _ in 0..k {
+            let n = Self::fresh_name(rng, &f2, (2, 3));
+            let d = ColDef { name: n, ty: if rng.chance(1, 2) { Ty::I32 } else { Ty::I64 }, nullable: true };
+            f2.cols.push((d.clone(), vec![]));
+            cs.push(d);
+        }
+        // right keys: most of the left keys, a few that match nothing
+        let mut keys: BTreeSet<i64> = flat.col(&c).unwrap().1.iter().flatten().copied().filter(|_| !partial || rng.chance(3, 4)).collect();
+        for _ in 0..rng.usize(3) {
+            keys.insert(20 + rng.below(5) as i64);
+        }
+        let rows: Vec<Row> = keys
+            .into_iter()
+            .map(|k| {
+                let mut r = vec![Some(k)];
+                r.extend(cs.iter().map(|_| gen_cell(rng, partial)));
+                r
+            })
+            .collect();
+        Op::Merge(c, cs, rows)
+    }
     fn gen_valid(rng: &mut Rng, flat: &Flat) -> Op {
         loop {
-            let op = match rng.below(100) {
+            let op = match rng.below(112) {
+                100..=111 => Self::gen_merge(rng, flat),
                 0..=11 => {
                     let n = 1 + rng.usize(4);
                     Op::Append(gen_rows(rng, &flat.defs(), n))
@@ -958,7 +1046,7 @@ impl C14 {
                     if flat.cols.len() < 2 {
                         continue;
                     }
-                    let mut cs = vec![Self::some_col(rng, flat)];
+                    let mut cs = vec![if rng.chance(1, 2) { flat.cols.last().unwrap().0.name.clone() } else { Self::some_col(rng, flat) }];
                     if flat.cols.len() > 2 && rng.chance(1, 4) {
                         let c = Self::some_col(rng, flat);
                         if !cs.contains(&c) {
@@ -997,7 +1085,21 @@ impl C14 {
                 let rows = gen_rows(rng, &cs, n);
                 show_op(&Op::AddReader(None, cs, cut(rng, rows)))
             }
-            9 => "add_sql d q3=nosuch+1".into(),
+            9 => {
+                if rng.chance(1, 2) {
+                    "add_sql d q3=nosuch+1".into()
+                } else {
+                    let opts = [
+                        "merge nosuch q4:l 1,2".to_string(),
+                        format!("merge {c} {c}:l 1,2"),
+                        format!("merge {c} q4:L 1,2"),
+                        format!("merge {c} q4:l 1,2;1,3"),
+                        format!("merge {c} q4:l n,2"),
+                        format!("merge {c} {}:l 1,2", flat.cols[0].0.name),
+                    ];
+                    rng.pick(&opts).clone()
+                }
+            }
             10 => "append 1,2,3,4,5,6,7,8,9,10,11,12".into(),
             _ => "frobnicate 1".into(),
         }
@@ -1030,6 +1132,7 @@ impl Prop for C14 {
         let mut flat = Flat { cols: defs.iter().enumerate().map(|(i, d)| (d.clone(), rows.iter().map(|r| r[i]).collect())).collect(), n: rows.len(), dropped: BTreeSet::new() };
         // a few appends early so that most histories have several fragments
         let len = 2 + rng.usize(7);
+        let mut after_drop = 0u8;
         for i in 0..len {
             if rng.chance(1, 9) {
                 lines.push(Self::gen_malformed(rng, &flat));
@@ -1038,8 +1141,17 @@ impl Prop for C14 {
             let op = if i < 2 && rng.chance(1, 2) {
                 let n = 1 + rng.usize(4);
                 Op::Append(gen_rows(rng, &flat.defs(), n))
+            } else if after_drop == 1 && rng.chance(1, 2) {
+                Self::gen_merge(rng, &flat)
+            } else if after_drop == 2 && rng.chance(2, 3) {
+                Self::gen_merge(rng, &flat)
             } else {
                 Self::gen_valid(rng, &flat)
+            };
+            after_drop = match &op {
+                Op::Drop(..) => 1,
+                Op::AddSql(..) | Op::AddNulls(..) | Op::AddReader(..) if after_drop == 1 => 2,
+                _ => 0,
             };
             if let Some(f) = flat.apply(&op) {
                 flat = f;
@@ -1139,6 +1251,9 @@ impl Prop for C14 {
                     }
                     res.outputs.push(format!("err {}", e.kind.as_str()));
                     res.tags.push(format!("err:{}:{}", op_kind(&op), e.kind.as_str()));
+                    if e.msg.contains("Lance does not yet support nulls for type") && expected.is_none() {
+                        res.tags.push("refused:merge_null_fill".into());
+                    }
                     if e.msg.contains("Missing too many rows in merge") {
                         // documented limitation of the Updater (the first read batch of a fragment holds only deleted rows)
                         res.tags.push("refused:missing_too_many_rows".into());
@@ -1203,8 +1318,27 @@ impl Prop for C14 {
                             }
                         }
                     }
+                    // ---- Dataset::validate, and the new fields of merge / reader are stored by every fragment
+                    if let Err(e) = kit.lance_call("validate", d.validate()) {
+                        fail(format!("Dataset::validate fails after {}: {}", op_kind(&op), e.msg), "validate_failed");
+                    }
+                    if let (Some(p), true) = (&prev, matches!(op, Op::Merge(..) | Op::AddReader(..))) {
+                        let old_ids: BTreeSet<i32> = p.schema.iter().map(|s| s.2).collect();
+                        for (n, _, id) in &obs.schema {
+                            if !old_ids.contains(id) {
+                                for f in &obs.frags {
+                                    if !f.3.iter().flatten().any(|i| i == id) {
+                                        fail(format!("new field {n} has id {id}, fragment {} stores {:?}", f.0, f.3), "new_field_id_not_in_files");
+                                    }
+                                }
+                            }
+                        }
+                        if matches!(op, Op::Merge(..)) && !p.schema.is_empty() && p.frags.iter().any(|f| f.3.iter().flatten().any(|i| *i > *old_ids.iter().max().unwrap())) {
+                            res.tags.push("merge_after_drop_of_highest_id".into());
+                        }
+                    }
                     // ---- frame
-                    if let (Some(p), true) = (&prev, matches!(op, Op::AddSql(..) | Op::AddNulls(..) | Op::AddReader(..) | Op::Alter(..) | Op::Drop(..))) {
+                    if let (Some(p), true) = (&prev, matches!(op, Op::AddSql(..) | Op::AddNulls(..) | Op::AddReader(..) | Op::Alter(..) | Op::Drop(..) | Op::Merge(..))) {
                         evolved += 1;
                         if p.rows.len() != obs.rows.len() {
                             fail(format!("{} changed the number of rows {} -> {}", op_kind(&op), p.rows.len(), obs.rows.len()), "row_count_changed");
@@ -1271,7 +1405,7 @@ impl Prop for C14 {
                     if obs.frags.iter().any(|f| f.3.iter().flatten().any(|i| !ids.contains(i))) {
                         res.tags.push("state:dropped_id_still_stored".into());
                     }
-                    if obs.frags.iter().any(|f| f.2 > 0) && matches!(op, Op::AddSql(..) | Op::AddReader(..) | Op::Alter(..)) {
+                    if obs.frags.iter().any(|f| f.2 > 0) && matches!(op, Op::AddSql(..) | Op::AddReader(..) | Op::Alter(..) | Op::Merge(..)) {
                         res.tags.push("evolve_with_deletions".into());
                     }
                     if let (Some(fl), Some(p)) = (&flat, &prev) {
@@ -1315,7 +1449,7 @@ impl Prop for C14 {
     fn rule(&self) -> String {
         "create (1-3 Int32/Int64 columns, 1 in 5 NOT NULL, 0-4 rows) then 2-8 ops: append 12% / delete by predicate 10% / compact_files 8% / \
          add_columns SqlExpressions 18% (col, col+k, CAST(NULL..), 1-2 columns, batch size 1/2/3/default) / AllNulls 8% / Reader 8% (1-3 batches) / \
-         alter_columns 20% (rename, cast Int32<->Int64, nullability, 1-2 alterations, name swaps) / drop_columns 16%; new names prefer \
+         alter_columns 20% (rename, cast Int32<->Int64, nullability, 1-2 alterations, name swaps) / drop_columns 16% (half of them the last column) / Dataset::merge 11% and after half of the drops (right batch keyed on an existing column: all left keys + keys that match nothing, 1 in 6 partial = refused, 1-2 new columns); new names prefer \
          previously dropped names; 1 line in 9 is malformed or invalid (existing name, missing column, drop all, duplicate rename, \
          non-null AllNulls, short/long reader, unknown op). Non-trivial = at least one successful add/alter/drop compared before/after."
             .into()
